@@ -55,9 +55,12 @@ func loadCorpus() ([]corpusStmt, []corpusFile) {
 			fatalf("cannot read corpus: %v", err)
 		}
 		sort.Slice(entries, func(i, j int) bool { return entries[i].Name() < entries[j].Name() })
-		for _, e := range entries {
+		for ei, e := range entries {
 			if !e.IsDir() {
 				continue
+			}
+			if ei%200 == 0 {
+				heartbeat()
 			}
 			td := filepath.Join(dir, e.Name())
 			qb, err := os.ReadFile(filepath.Join(td, "query.sql"))
